@@ -265,9 +265,9 @@ func NewUpdateBackfillStats() *UpdateBackfillStats {
 	return ubs
 }
 
-func (self *Engine) updateSomeTravellers(prefixStart byte, prefixEnd byte, share Kilometres,now EpochTime, ss *TravellersSnapshot) UpdateBackfillStats {
+func (self *Engine) updateSomeTravellers(prefixStart byte, prefixEnd byte, share Kilometres,now EpochTime, ss *TravellersSnapshot) (us UpdateBackfillStats) {
 
-	us := *NewUpdateBackfillStats()
+	us = *NewUpdateBackfillStats()
 	var prefix [1]byte
 
 	// Iterate through all keys with a first byte in the given
@@ -278,7 +278,12 @@ func (self *Engine) updateSomeTravellers(prefixStart byte, prefixEnd byte, share
 		us.Err = logError(err)
 		return us
 	}
-	defer bw.Release();
+	defer func() {
+		err := bw.Release()
+		if err != nil && us.Err == nil {
+			us.Err = logError(err)
+		}
+	}()
 
 	for pc:=int(prefixStart); pc <= int(prefixEnd); pc++ {
 
@@ -334,7 +339,12 @@ func (self *Engine) updateSomeTravellers(prefixStart byte, prefixEnd byte, share
 
 			// Save changes if necessary
 			if changed {
-				bw.Put(traveller)
+				err = bw.Put(traveller)
+				if err != nil {
+					it.Release()
+					us.Err = logError(err)
+					return us
+				}
 			}
 
 		}
